@@ -1098,7 +1098,16 @@ class AstEval:
             sym_table_assign = self.global_sym_table
         else:
             sym_table_assign = self.sym_table
-        sym_table_assign[arg.name] = EvalLocalVar(arg.name)
+        if sym_table_assign is self.global_sym_table:
+            #
+            # a class at the top level of a file is an ordinary global: it is looked up by name
+            # when used. A shared cell in the global table would be handed out by every
+            # "from m import C" or "m.C", and an importer rebinding its own name C (assignment,
+            # del, def, for, ...) would write through the cell into this file's global
+            #
+            class_var = None
+        else:
+            class_var = sym_table_assign[arg.name] = EvalLocalVar(arg.name)
         if hasattr(metaclass, "__prepare__"):
             sym_table = metaclass.__prepare__(arg.name, tuple(bases), **keywords)
         else:
@@ -1126,7 +1135,10 @@ class AstEval:
             cls = await cls
         for dec_func in reversed(decorators):
             cls = await self.call_func(dec_func, None, cls)
-        sym_table_assign[arg.name].set(cls)
+        if class_var is None:
+            sym_table_assign[arg.name] = cls
+        else:
+            class_var.set(cls)
 
     async def ast_functiondef(self, arg, async_func=False):
         """Evaluate function definition."""
